@@ -6,6 +6,7 @@ import (
 	"encoding/json"
 	"fmt"
 	"sort"
+	"strings"
 	"testing"
 	"time"
 
@@ -218,6 +219,17 @@ func TestVersionTime(t *testing.T) {
 			ev.SampleFn(chkTime, func() interface{} { s := c.Summary(); s["cutTime"] = T; return s })
 			if kind != "" {
 				ev.Fail(t, chkTime, kind, sig, &c, "%s", msg)
+			}
+		}
+		// a well-formed version time before the epoch lies before every operation: must be an error
+		pre := *base
+		pre.Cut = "bad-time"
+		pre.RawTime = rapid.SampledFrom([]string{"1969-12-31T23:59:59Z", "1960-01-01T00:00:00Z", "0001-01-01T00:00:00Z", "1970-01-01T00:00:00+00:01"}).Draw(t, "preEpoch")
+		{
+			kind, sig, msg, _ := evalCase(&pre)
+			ev.Record(chkTime, true, caseID(&pre), "cut:pre-epoch-time")
+			if kind != "" {
+				ev.Fail(t, chkTime, "C06/time-before-first-operation-accepted", sig, &pre, "%s", strings.Replace(msg, "malformed version time", "version time before the first operation", 1))
 			}
 		}
 		bad := *base
